@@ -32,6 +32,8 @@ CHECKS = {
          "fault enumeration: id high-water-mark oracle at every journal cut + restart chains"),
  "C12": ("E4 journal lab", "5/C12", "metamorphic comparison restore(J) vs restore(prune(J)) with the prune executed by the real journal thread (tmp file, rename, reopen) at the moments and with the live sets of real prune requests; appended records, double prune",
          "metamorphic runtime check: restore of pruned vs. unpruned journal"),
+ "C15": ("E2 scheduling-round lab", "5/C15", "one real scheduling decision (create_task_batches -> MILP -> create_task_mapping through run_scheduling) per generated small cluster and ready queue, judged from the core snapshots before/after: every (dispatched lower-priority task, still ready higher-priority task) pair is tested against the statement incl. its exception; a fixed corpus of 20000 instances is judged completely in every run, its members that fail on the unchanged tree are individually listed known findings; random instances add counts and bear a verdict only for single-class shapes",
+         "runtime monitor: priority-inversion oracle over snapshots of single scheduling decisions (fixed corpus + random instances)"),
  "C16": ("E3 allocator lab", "5/C16", "brute force over group subsets on the snapshot taken before each grant decides minimal/optimal group counts, spreading, feasibility and admission/grant agreement for the real allocator",
          "runtime monitor: brute-force reference oracle on every reached allocator free state"),
  "C17": ("E5 autoalloc lab", "5/C17", "the real AutoAllocState driven through its real entry points (handle_message, perform_submits, do_periodic_update) and the real scheduler worker query, against a simulated batch system with adversarial answers and a virtual limiter clock; limits checked on every snapshot, submissions on every handler call",
@@ -46,9 +48,10 @@ CHECKS = {
 LEVEL_NOTE = {
  SIM: "held on the executions produced, never 'verified'; trusted: registration/disconnect glue restated in tako::verif::SimServer, fake task launcher, FIFO-per-link transport model, HiGHS determinism for replay",
  "E3 allocator lab": "held on the operation sequences produced; the allocator is driven directly through tako::verif::AllocatorLab with well-formed requests; brute-force reference and ledger are small but trusted",
+ "E2 scheduling-round lab": "only decisions whose MILP solve completed (optimal) are judged; the MILP encoding is approximate for two or more request classes (23 corpus members fail on the unchanged tree and are listed as known findings), so outside the corpus only single-class instances bear a verdict; HiGHS is deterministic for a given model, which the instance keys rely on",
  "E6 stream lab": "chunks enter at StreamSender::send_data with the chunk sizes and end markers the launcher produces; the process-spawning launcher (resend_stdio over pipes) is not driven; a cut file only holds superseded instances",
  "E7 handshake lab": "adversary without key material; frames decoded with mirror structs of the crate-private messages",
- "E5 autoalloc lab": "the batch system is simulated (the real PBS/Slurm handlers are out of scope); demand is judged only where unambiguous; per worker the connect notification precedes the loss notification",
+ "E5 autoalloc lab": "the batch system is simulated (the real PBS/Slurm handlers are out of scope); demand is judged only where unambiguous; worker notifications include losses before/without a connect and duplicated losses",
  "E4 journal lab": "exhaustive over the record boundaries of the journals produced (journals themselves are sampled); reference fold is small but trusted; queue records are not produced inside E1",
 }
 LEVEL = {p: "exploration" for p in CHECKS}
